@@ -1,6 +1,7 @@
 import GuppyVerif.Model.Unitary
 /-! Specification vocabulary for C24, independent of the checker's traversal code:
-    occurrence relations over the syntax tree, and flag inclusion by quantifying over
+    occurrence relations over the syntax tree that carry the flags required at each position
+    (the union of the flags of all enclosing contexts), and flag inclusion by quantifying over
     the three flag kinds. -/
 namespace GuppyVerif.Unitary
 
@@ -31,56 +32,67 @@ inductive Sub : Expr → Expr → Prop where
   | node {x a cs q} : Args.Mem a cs → Sub x a → Sub x (.node cs q)
 
 mutual
-/-- `SiteS e s`: `e` is an expression position of statement `s`: the statement's own
-    expression, an assigned value, an `if` / `while` condition, or a position of a nested
-    statement. -/
-inductive SiteS : Expr → Stmt → Prop where
-  | expr {e} : SiteS e (.expr e)
-  | assign {e} : SiteS e (.assign (some e))
-  | iteC {c t f} : SiteS c (.ite c t f)
-  | iteT {e c t f} : SiteB e t → SiteS e (.ite c t f)
-  | iteF {e c t f} : SiteB e f → SiteS e (.ite c t f)
-  | whileC {c b} : SiteS c (.while c b)
-  | whileB {e c b} : SiteB e b → SiteS e (.while c b)
-inductive SiteB : Expr → Block → Prop where
-  | head {e s r} : SiteS e s → SiteB e (.cons s r)
-  | tail {e s r} : SiteB e r → SiteB e (.cons s r)
+/-- `SiteS F s F' e`: when statement `s` stands in a context requiring `F`, `e` is an
+    expression position of `s` — the statement's own expression, an assigned value, an
+    `if` / `while` condition, a control argument of a nested `with`, or a position of a nested
+    statement — and `F'` is what is required there: `F` plus the flags of every `with` block
+    entered on the way. -/
+inductive SiteS : Flags → Stmt → Flags → Expr → Prop where
+  | expr {F e} : SiteS F (.expr e) F e
+  | assign {F e} : SiteS F (.assign (some e)) F e
+  | iteC {F c t f} : SiteS F (.ite c t f) F c
+  | iteT {F F' e c t f} : SiteB F t F' e → SiteS F (.ite c t f) F' e
+  | iteF {F F' e c t f} : SiteB F f F' e → SiteS F (.ite c t f) F' e
+  | whileC {F c b} : SiteS F (.while c b) F c
+  | whileB {F F' e c b} : SiteB F b F' e → SiteS F (.while c b) F' e
+  | withArg {F e cargs G b} : Args.Mem e cargs → SiteS F (.withBlock cargs G b) F e
+  | withBody {F F' e cargs G b} : SiteB (F.or G) b F' e → SiteS F (.withBlock cargs G b) F' e
+inductive SiteB : Flags → Block → Flags → Expr → Prop where
+  | head {F F' e s r} : SiteS F s F' e → SiteB F (.cons s r) F' e
+  | tail {F F' e s r} : SiteB F r F' e → SiteB F (.cons s r) F' e
 end
 
 mutual
-inductive LoopInS : Stmt → Prop where
-  | here {c b} : LoopInS (.while c b)
-  | iteT {c t f} : LoopInB t → LoopInS (.ite c t f)
-  | iteF {c t f} : LoopInB f → LoopInS (.ite c t f)
-inductive LoopInB : Block → Prop where
-  | head {s r} : LoopInS s → LoopInB (.cons s r)
-  | tail {s r} : LoopInB r → LoopInB (.cons s r)
+/-- a loop statement occurs at a position where `F'` is required -/
+inductive LoopAtS : Flags → Stmt → Flags → Prop where
+  | here {F c b} : LoopAtS F (.while c b) F
+  | whileB {F F' c b} : LoopAtB F b F' → LoopAtS F (.while c b) F'
+  | iteT {F F' c t f} : LoopAtB F t F' → LoopAtS F (.ite c t f) F'
+  | iteF {F F' c t f} : LoopAtB F f F' → LoopAtS F (.ite c t f) F'
+  | withBody {F F' cargs G b} : LoopAtB (F.or G) b F' → LoopAtS F (.withBlock cargs G b) F'
+inductive LoopAtB : Flags → Block → Flags → Prop where
+  | head {F F' s r} : LoopAtS F s F' → LoopAtB F (.cons s r) F'
+  | tail {F F' s r} : LoopAtB F r F' → LoopAtB F (.cons s r) F'
 end
 
 mutual
-inductive AssignInS : Stmt → Prop where
-  | here {v} : AssignInS (.assign v)
-  | iteT {c t f} : AssignInB t → AssignInS (.ite c t f)
-  | iteF {c t f} : AssignInB f → AssignInS (.ite c t f)
-  | whileB {c b} : AssignInB b → AssignInS (.while c b)
-inductive AssignInB : Block → Prop where
-  | head {s r} : AssignInS s → AssignInB (.cons s r)
-  | tail {s r} : AssignInB r → AssignInB (.cons s r)
+/-- an assignment occurs at a position where `F'` is required -/
+inductive AssignAtS : Flags → Stmt → Flags → Prop where
+  | here {F v} : AssignAtS F (.assign v) F
+  | whileB {F F' c b} : AssignAtB F b F' → AssignAtS F (.while c b) F'
+  | iteT {F F' c t f} : AssignAtB F t F' → AssignAtS F (.ite c t f) F'
+  | iteF {F F' c t f} : AssignAtB F f F' → AssignAtS F (.ite c t f) F'
+  | withBody {F F' cargs G b} : AssignAtB (F.or G) b F' → AssignAtS F (.withBlock cargs G b) F'
+inductive AssignAtB : Flags → Block → Flags → Prop where
+  | head {F F' s r} : AssignAtS F s F' → AssignAtB F (.cons s r) F'
+  | tail {F F' s r} : AssignAtB F r F' → AssignAtB F (.cons s r) F'
 end
 
 /-- some argument of the call carries a qubit -/
 def Args.PassesQubit (args : Args) : Prop := ∃ a, Args.Mem a args ∧ a.hasQubit = true
 
-/-- A call occurring anywhere in the block passes a qubit-containing argument to a callee
-    whose flags do not include every flag of the context. -/
-def BadCall (F : Flags) (b : Block) : Prop :=
-  ∃ e g args r, SiteB e b ∧ Sub (.call g args r) e ∧ args.PassesQubit ∧ ¬ g.Includes F
+/-- What makes one expression position bad when `F` is required there: a call occurring in
+    it passes a qubit-containing argument to a callee whose flags do not include every
+    required flag, or (dagger) a subscripted place occurs in it. -/
+def BadE (F : Flags) (e : Expr) : Prop :=
+  (∃ g args r, Sub (.call g args r) e ∧ args.PassesQubit ∧ ¬ g.Includes F) ∨
+    (F.dagger = true ∧ ∃ q, Sub (.place q true) e)
 
-/-- A subscripted place occurs anywhere in the block. -/
-def SubscriptIn (b : Block) : Prop := ∃ e q, SiteB e b ∧ Sub (.place q true) e
-
-/-- The statement of C24: what must be rejected. -/
+/-- The statement of C24: what must be rejected, for a block standing in a context that
+    requires `F`.  Some expression position anywhere in the block is bad for the flags
+    required *there*; or a loop or an assignment stands where dagger is required. -/
 def Violates (F : Flags) (b : Block) : Prop :=
-  BadCall F b ∨ (F.dagger = true ∧ (LoopInB b ∨ AssignInB b ∨ SubscriptIn b))
+  (∃ F' e, SiteB F b F' e ∧ BadE F' e) ∨
+    (∃ F', F'.dagger = true ∧ (LoopAtB F b F' ∨ AssignAtB F b F'))
 
 end GuppyVerif.Unitary
